@@ -23,6 +23,21 @@ FLAVOURS = {
     "android": ["{t}", "{t} two words", "{t} &amp; co", "{t} \\'q\\'", "<![CDATA[{t} <b>x</b>]]>", "{t} é", "{t} &lt;b&gt;",
                 "\n      <![CDATA[{t} <i>y</i>]]>\n    "],
 }
+# round 4: reference <string> elements with inline markup / several child nodes (AndroidEntity.wrap replaces ONE child's data)
+ANDROID_MARKUP = ["{t} <b>bold</b>", "<b>{t}</b>", "{t} <xliff:g id=\"x\">%s</xliff:g>", "<xliff:g id=\"x\">%s</xliff:g> {t}",
+                  "{t} <b>x</b> tail", "<!-- c -->{t}", "{t}<![CDATA[ {t}c ]]> t", "<!-- only a comment {t} -->"]
+XLIFF = 'xmlns:xliff="urn:oasis:names:tc:xliff:document:1.2"'
+REF_ROOT = [XLIFF, 'xmlns:tools="http://schemas.android.com/tools"', 'xmlns:a="urn:ENa"']
+OLD_ROOT = [XLIFF, 'xmlns:tools="http://OLDtools"', 'xmlns:other="urn:OLDother"', 'xmlns:a="urn:OLDa"']
+
+
+def pick_root(rng, pool, need_xliff):
+    attrs = [a for a in pool if rng.random() < 0.4]
+    if need_xliff and XLIFF not in attrs:
+        attrs.insert(rng.randrange(len(attrs) + 1), XLIFF)
+    rng.shuffle(attrs)
+    return "".join(" " + a for a in attrs)
+
 COMMENT_TEXTS = ["note A", "note B", "note C", "shared note"]
 
 
@@ -119,10 +134,12 @@ def render_rec(fmt, r):
     raise ValueError(r.kind)
 
 
-def render_file(fmt, recs, eof_newline=True):
+def render_file(fmt, recs, eof_newline=True, root=""):
     body = "".join(render_rec(fmt, r) for r in recs)
     if fmt == "android":
-        body = '<?xml version="1.0" encoding="utf-8"?>\n<resources>\n' + body + "</resources>\n"
+        if "xliff:" in body and "xmlns:xliff" not in root:
+            root += " " + XLIFF
+        body = '<?xml version="1.0" encoding="utf-8"?>\n<resources%s>\n' % root + body + "</resources>\n"
     if not eof_newline:
         body = body.rstrip("\n")
     return body
@@ -164,6 +181,8 @@ def gen_file(rng, fmt, keys, tagp, own_comments, filtered, allow_junk, obsolete=
             recs.append(Rec("section", "Sec%d" % i))
         c = rng.choice(own_comments) if rng.random() < 0.3 else None
         val = pick_val(rng, fmt, "%s%s" % (tagp, k))
+        if fmt == "android" and tagp == "EN" and rng.random() < 0.06:
+            val = rng.choice(ANDROID_MARKUP).replace("{t}", "%s%s" % (tagp, k))
         if fmt in ("inc", "android") and rng.random() < 0.04:
             val = None          # `#define k` without a value / <string name="k"/>
         recs.append(Rec("ent", k, val, c, rng.randrange(4)))
@@ -193,7 +212,9 @@ def gen_random_case(rng, fmt):
     if fmt == "android" and rng.random() < 0.05:
         old_text = rng.choice(["", "not xml JUNK", "<other>JUNK</other>"])
     else:
-        old_text = render_file(fmt, old, eof_newline=rng.random() < 0.85) if (okeys or obs or rng.random() < 0.7) else ""
+        old_text = render_file(fmt, old, eof_newline=rng.random() < 0.85,
+                               root=pick_root(rng, OLD_ROOT, False) if fmt == "android" else "") \
+            if (okeys or obs or rng.random() < 0.7) else ""
     new = []
     for k in rkeys:
         r = rng.random()
@@ -214,7 +235,8 @@ def gen_random_case(rng, fmt):
         elif r < 0.25:
             new.append((k, None))
     rng.shuffle(new)
-    return {"fmt": fmt, "ref": render_file(fmt, ref, eof_newline=rng.random() < 0.9), "old": old_text,
+    return {"fmt": fmt, "ref": render_file(fmt, ref, eof_newline=rng.random() < 0.9,
+                                           root=pick_root(rng, REF_ROOT, False) if fmt == "android" else ""), "old": old_text,
             "new_src": [[k, v, rng.randrange(4)] for k, v in new]}
 
 
@@ -368,3 +390,182 @@ def gen_entry_case(rng):
             new.append([k, None])
     rng.shuffle(new)
     return {"ref": ref, "old": old, "new": new}
+
+
+# ------------------------------------------------------------------ round 4: white-space around junk of the OLD file
+# Junk regions are marked BY CONSTRUCTION: their first and last non-blank characters are private markers, and the
+# white-space put directly before / after them inside the region comes from ALL Unicode white-space (str.isspace)
+# outside the formats' own `[ \t\r\n]`.  None of these characters occurs anywhere else (reference, old records, new
+# values), so "no old junk text appears in the output" is decidable on the output text alone.
+UWS = [chr(i) for i in range(0x110000) if chr(i).isspace() and chr(i) not in " \t\r\n"]
+JMARK_A, JMARK_B = "Ж", "Џ"          # Ж … Џ
+PRIVATE = frozenset(UWS) | {JMARK_A, JMARK_B}
+# text between the two markers: must not contain anything the format's parser resumes at (comment / key starters)
+JUNK_MID = {"properties": " line without separator ", "dtd": "<!ENTY x broken>", "ini": " line without separator ",
+            "inc": " line ", "ftl": " line !! "}
+# the format's own inline white-space (what its parser may split off a junk line); inc: blanks belong to the junk
+FMT_WS = {"properties": [" ", "\t", "\r"], "dtd": [" ", "\t", "\r"], "ini": [" ", "\t", "\r"], "inc": [" ", "\t"],
+          "ftl": [" ", "\t", "\r"]}
+
+
+def junk_line(fmt, lead, trail):
+    """one junk region: lead + Ж…Џ + trail + newline"""
+    return lead + JMARK_A + JUNK_MID[fmt] + JMARK_B + trail + "\n"
+
+
+def android_junk(kind, lead="", trail=""):
+    if kind == "element":
+        return '  <plurals name="%s"><item quantity="one">%s%s%s</item></plurals>\n' % (JMARK_A, lead, JMARK_B, trail)
+    return lead + "not xml " + JMARK_A + " <" + JMARK_B + trail          # the whole file is one XMLJunk
+
+
+def junk_ws_file(fmt, recs, inserts, eof_newline=True):
+    """render `recs`, with junk regions inserted before record index i for every (i, lead, trail) of `inserts`
+    (i == len(recs): at the end)"""
+    parts = [render_rec(fmt, r) for r in recs]
+    by_pos = {}
+    for i, lead, trail in inserts:
+        by_pos.setdefault(i, []).append((lead, trail))
+    out = []
+    for i in range(len(parts) + 1):
+        for lead, trail in by_pos.get(i, []):
+            out.append(junk_line(fmt, lead, trail) if fmt != "android" else android_junk("element", lead, trail))
+        if i < len(parts):
+            out.append(parts[i])
+    body = "".join(out)
+    if fmt == "android":
+        body = '<?xml version="1.0" encoding="utf-8"?>\n<resources>\n' + body + "</resources>\n"
+    if not eof_newline:
+        body = body.rstrip("\n")
+    return body
+
+
+def _lead_ok(fmt, recs, i, lead):
+    """Fluent: an indented line after a message (also after blank lines) continues its value / last attribute, it is not junk:
+    a blank-indented junk line is only generated at the file start or directly after a stand-alone comment"""
+    if fmt != "ftl" or not lead or lead[0] != " ":
+        return True
+    return i == 0 or recs[i - 1].kind in ("comment", "license")
+
+
+def gen_junkws_exhaustive(fmt):
+    """every Unicode white-space character x {before, after, both ends of the junk} x {file start, between two
+    records, after a standalone comment, after an attached comment's entity, file end} (+ no final newline at the end)"""
+    cases = []
+    head = [Rec("section", "Strings")] if fmt == "ini" else []
+    ref = render_file(fmt, head + [Rec("ent", "k1", "ENk1"), Rec("ent", "k2", "ENk2", "note A")])
+    recs = head + [Rec("ent", "k1", "OLDk1"), Rec("comment", comment="note B", extra=(fmt != "inc")),
+                   Rec("ent", "k2", "OLDk2", "note A")]
+    h = len(head)
+    if fmt == "android":
+        for c in UWS:
+            for lead, trail in ((c, ""), ("", c), (c, c)):
+                for new in ([], [["k1", "NEWk1", 0]]):
+                    cases.append({"fmt": fmt, "ref": ref, "old": android_junk("file", lead, trail), "new_src": new, "junkws": "file"})
+        for pos in (h, h + 1, h + 2, h + 3):
+            cases.append({"fmt": fmt, "ref": ref, "old": junk_ws_file(fmt, recs, [(pos, UWS[pos], UWS[-pos - 1])]),
+                          "new_src": [["k2", "NEWk2", 0]], "junkws": "element"})
+        return cases
+    for c in UWS:
+        for lead, trail in ((c, ""), ("", c), (c, c)):
+            for pos in (h, h + 1, h + 2, h + 3):
+                for eof in ((True, False) if pos == h + 3 else (True,)):
+                    for new in ([], [["k1", "NEWk1", 0], ["k2", None, 0]]):
+                        cases.append({"fmt": fmt, "ref": ref, "old": junk_ws_file(fmt, recs, [(pos, lead, trail)], eof),
+                                      "new_src": new, "junkws": "exh"})
+    # the format's own white-space at the ends of the junk line
+    for lead in [""] + FMT_WS[fmt]:
+        for trail in [""] + FMT_WS[fmt]:
+            for pos in (h, h + 1, h + 2, h + 3):
+                if _lead_ok(fmt, recs, pos, lead):
+                    cases.append({"fmt": fmt, "ref": ref, "old": junk_ws_file(fmt, recs, [(pos, lead, trail)]),
+                                  "new_src": [], "junkws": "fmtws"})
+    return cases
+
+
+def gen_junkws_case(rng, fmt):
+    """random files with 1-3 junk regions whose ends are Unicode / format white-space runs"""
+    nref = rng.randrange(1, 5)
+    rkeys = rng.sample(KEYS, nref)
+    filtered = rng.random() < 0.5
+    okeys = [k for k in rkeys if rng.random() < 0.7]
+    obs = rng.sample(OBS, rng.choice([0, 0, 1]))
+    recs = gen_file(rng, fmt, okeys, "OLD", COMMENT_TEXTS + ["l10n note"], filtered, False, obs)
+    ref = gen_file(rng, fmt, rkeys, "EN", COMMENT_TEXTS, filtered, False)
+
+    def ws_run(i, is_lead):
+        r = rng.random()
+        if r < 0.15:
+            return ""
+        if r < 0.8 or fmt == "android":
+            return "".join(rng.choice(UWS) for _ in range(rng.choice([1, 1, 2])))
+        run = "".join(rng.choice(FMT_WS[fmt] + UWS[:2]) for _ in range(rng.choice([1, 2])))
+        return run if (not is_lead or _lead_ok(fmt, recs, i, run)) else ""
+
+    inserts = []
+    for _ in range(rng.choice([1, 1, 2, 3])):
+        i = rng.choice([0, len(recs), rng.randrange(len(recs) + 1)])
+        if fmt == "ini" and i == 0 and recs:
+            i = 1 if rng.random() < 0.7 else 0
+        inserts.append((i, ws_run(i, True), ws_run(i, False)))
+    if fmt == "android" and rng.random() < 0.2:
+        old_text = android_junk("file", ws_run(0, True), ws_run(0, False))
+    else:
+        old_text = junk_ws_file(fmt, recs, inserts, eof_newline=rng.random() < 0.8)
+    new = []
+    for k in rkeys + obs + UNK[:1]:
+        r = rng.random()
+        if r < (0.3 if k in rkeys else 0.1):
+            new.append([k, pick_val(rng, fmt, "NEW" + k), rng.randrange(4)])
+        elif r < (0.45 if k in rkeys else 0.2):
+            new.append([k, None, 0])
+    rng.shuffle(new)
+    return {"fmt": fmt, "ref": render_file(fmt, ref), "old": old_text, "new_src": new, "junkws": "random"}
+
+
+# ------------------------------------------------------------------ round 4: AndroidEntity.wrap / serialize_comment alone
+WRAP_CHILDREN = ["EN text", " ", "\n    ", "<![CDATA[EN <b>c</b>]]>", "<![CDATA[]]>", "<b>EN</b>", "<!-- c -->", "<xliff:g id=\"1\">%s</xliff:g>",
+                 "&amp;&lt;", "<?pi EN?>", "a &quot;q&quot; 'b'"]
+WRAP_RAWS = ["NEW", "", "a & b", "x < y > z", "say \"hi\" 'there'", "]]>", "a ]]> b", "--", "a -- b", "é \u3000", "&amp;", "<b>x</b>", "\n  NEW\n"]
+
+
+def gen_wrap_case(rng):
+    """a one-entity strings.xml whose <string> has 0-4 child nodes of every class, optional attached comment, and a raw value"""
+    n = rng.choice([0, 1, 1, 1, 2, 2, 3, 4])
+    inner = "".join(rng.choice(WRAP_CHILDREN) for _ in range(n))
+    attrs = rng.choice(["", ' translatable="false"', ' tools:x="a &amp; b"'])
+    comment = rng.choice(["", "", "  <!-- note -->\n", "<!-- a --> <!-- b -->\n"])
+    lead = rng.choice(["  ", "", "\n  "])
+    body = "%s%s<string name=\"k\"%s>%s</string>\n" % (comment, lead, attrs, inner) if (n or rng.random() < 0.5) \
+        else "%s%s<string name=\"k\"%s/>\n" % (comment, lead, attrs)
+    text = '<?xml version="1.0" encoding="utf-8"?>\n<resources %s xmlns:tools="urn:t">\n%s</resources>\n' % (XLIFF, body)
+    return {"text": text, "key": "k", "raw": rng.choice(WRAP_RAWS)}
+
+
+COMMENT_CONTENTS = ["", "one line", "two\nlines", "gap\n\nbelow", "\n", "\nlead", "trail\n", "  indented", "é\u3000x", "a\n\n\nb", "#"]
+
+
+# ------------------------------------------------------------------ round 4: directed layouts (coverage of the anchored parsers)
+def gen_directed(fmt):
+    """few hand-picked layouts the record generators do not produce: Fluent terms and messages without a value; Android comments
+    at the very end of <resources> (with / without white-space after them) and a comment followed by a processing instruction"""
+    cases = []
+    if fmt == "ftl":
+        ref = "-brand = ENbrand\n# note A\nk1 =\n    .attr = ENk1A\nk2 = ENk2\n"
+        olds = ["", "-brand = OLDbrand\nk1 =\n    .attr = OLDk1A\n", "k2 = OLDk2\n-brand = OLDbrand\n    .gender = x\n"]
+        news = [[], [["-brand", "-brand = NEWbrand", 0]], [["k1", "k1 =\n    .attr = NEWk1A", 0], ["-brand", None, 0]]]
+        for old in olds:
+            for new in news:
+                cases.append({"fmt": fmt, "ref": ref, "old": old, "new_src": [list(n) for n in new], "directed": True, "raw_new": True})
+    if fmt == "android":
+        H = '<?xml version="1.0" encoding="utf-8"?>\n<resources>\n'
+        bodies = ['  <string name="k1">%sk1</string>\n  <!-- tail -->\n</resources>\n',
+                  '  <string name="k1">%sk1</string>\n  <!-- tail --></resources>\n',
+                  '  <!-- c --><?pi x?>\n  <string name="k1">%sk1</string>\n</resources>\n',
+                  '  <!-- a -->\n  <!-- b -->\n\n\n  <string name="k1">%sk1</string>\n  <!-- c -->\n  <?pi y?>\n</resources>\n']
+        for rb in bodies:
+            for ob in bodies + [None]:
+                for new in ([], [["k1", "NEWk1", 0]]):
+                    cases.append({"fmt": fmt, "ref": H + rb % "EN", "old": (H + ob % "OLD") if ob else "",
+                                  "new_src": [list(n) for n in new], "directed": True})
+    return cases
